@@ -1383,8 +1383,17 @@ class DB:
                 if still_called:
                     break
             if not still_called:
+                if g.raw.get("is_async"):
+                    # the coroutine body goes with its async fn -- unless closures nested in it would lose their parent
+                    cors = [x for x in self.fns.values() if getattr(x, "parent", None) == gid]
+                    if any(getattr(y, "parent", None) == x.id for x in cors for y in self.fns.values()):
+                        continue
+                    for x in cors:
+                        self.fns.pop(x.id, None)
                 self.fns.pop(gid, None)
                 self.removed_helpers = getattr(self, "removed_helpers", []) + [gid]
+        self._children = None
+        self._callers = None
 
     # lookups --------------------------------------------------------------------------
     def fn(self, id):
